@@ -209,12 +209,35 @@ def rule_sg6(A: Analysis, rep):
         rep.check(isinstance(arg, ast.Constant) and isinstance(arg.value, bytes) and len(arg.value) == 1, "SG6", "exactly one byte", w,
                   "", "the wake-up write is not exactly one byte")
     wt = A.fn(S + "wait")
-    stm = [s for s in wt.node.body if not (isinstance(s, ast.Expr) and isinstance(s.value, ast.Constant))]
+    gw = A.cfg(wt, "plain")
     reads = [c for c in walk_local(wt.node) if isinstance(c, ast.Call) and norm(c.func) == "os.read"]
     ok = len(reads) == 1 and len(reads[0].args) == 2 and norm(reads[0].args[0]) == "self._read_pipe" and norm(reads[0].args[1]) == "1"
-    ok = ok and len(stm) == 2 and isinstance(stm[1], ast.Return) and norm(stm[1].value) == "self._extract_any()" and reads[0] in list(ast.walk(stm[0]))
-    rep.check(ok, "SG6", "wait: one byte then one entry", wt.node, "wait() blocks for one byte, then extracts exactly one entry",
+    rets = [n for n in gw.nodes if n.kind == "stmt" and isinstance(n.ast, ast.Return)]
+    if ok:
+        rn = gw.node_of(_stmt_of(reads[0]))
+        # every return passes exactly one read of one byte and returns one extracted entry; the read is not in a loop
+        ok = len(rets) == 1 and norm(rets[0].ast.value) == "self._extract_any()" and gw.all_paths_pass(gw.entry, rets[0], [rn], skip_labels=is_exc) and \
+            rn not in gw.reach([m for (m, l) in rn.succ], skip_labels=is_exc)
+    rep.check(ok, "SG6", "wait: one byte then one entry", wt.node, "wait() consumes one byte, then extracts exactly one entry",
               "wait() no longer reads exactly one byte before extracting one entry")
+    # SG9: no lost wake-up.  The byte is produced by a *Python-level* signal handler, which only runs between
+    # bytecodes of the main thread: a SIGCHLD delivered after the interpreter's last signal check but before a
+    # blocking read() enters the kernel would never be noticed.  The blocking wait must therefore have a timeout.
+    ok9 = False
+    det9 = "wait() blocks in os.read() on the self-pipe without a timeout: a SIGCHLD delivered just before the read enters the kernel is lost and `cond run` hangs with a zombie child"
+    if reads:
+        rn = gw.node_of(_stmt_of(reads[0]))
+        polls = [c for c in walk_local(wt.node) if isinstance(c, ast.Call) and norm(c.func) in ("select.select", "select.poll", "selectors.DefaultSelector")]
+        for c in polls:
+            if norm(c.func) == "select.select" and len(c.args) == 4 and "self._read_pipe" in norm(c.args[0]):
+                tv = A.prog.fold(wt.module, c.args[3])
+                bounded = isinstance(tv, (int, float)) and not isinstance(tv, bool) and 0 < tv <= 5
+                gs = A.path_guards(gw, gw.entry, rn, wt)
+                gated = bool(gs) and all(any("select.select(" in a and p for a, p in cj) for cj in gs)
+                ok9 = bounded and gated
+                det9 = "select timeout=%r (must be a positive constant ≤ 5 s); read gated by the poll result=%s" % (tv, gated)
+    rep.check(ok9, "SG9", "blocking wait has a timeout (no lost SIGCHLD wake-up)", wt.node,
+              "the self-pipe is polled with a bounded timeout in a loop, so a pending Python-level handler always gets to run", det9, key="SG9|lost wakeup")
     ea = A.fn(S + "_extract_any")
     rets = [x for x in walk_local(ea.node) if isinstance(x, ast.Return)]
     rep.check(len(rets) == 1 and norm(rets[0].value) in ("self._returncodes.pop()", "self._returncodes.pop(0)"), "SG6", "extract removes one entry", ea.node,
@@ -230,6 +253,7 @@ def rule_sg6(A: Analysis, rep):
     rep.check(users.get("_read_pipe") == {"__init__", "track", "wait"} and users.get("_write_pipe") == {"__init__", "track", "_add_returncode"}, "SG6", "pipe accessors", None,
               "", "pipe ends are touched by %s / %s" % (sorted(users.get("_read_pipe", [])), sorted(users.get("_write_pipe", []))), deep=False)
     rep.expect_min("SG6", 5)
+    rep.expect_min("SG9", 1)
 
 
 def rule_sg7(A: Analysis, rep):
